@@ -1656,7 +1656,12 @@ class NumberOrderedForm(Operator):
                 continue
 
             # Convert the coefficient to a polynomial and extract the generators
-            poly = sympy.poly(coeff)
+            try:
+                poly = sympy.poly(coeff)
+            except sympy.polys.polyerrors.BasePolynomialError:
+                # E.g. a complex numerical prefactor; keep the coefficient as is.
+                new_terms[powers] = coeff
+                continue
             number_gens = tuple(
                 gen for gen in poly.gens if gen in self._number_operator_placeholders
             )
